@@ -23,6 +23,11 @@ REQUIRED_THEOREMS = ["vm_unwind_contract", "vm_unwind_uncaught", "vm_push_handle
                      "normal_end_of_try_enters_finally", "finally_end_resumes", "finally_end_rethrows", "throw_leaves_call",
                      "uncaught_at_fiber_bottom_ends_run", "unwind_contract", "unwind_uncaught", "handler_lifo", "unwind_selects_innermost", "balanced_region",
                      "finally_flag", "handlers_per_fiber", "verify_sound"]
+# the statement compilers translated from compiler.rs on every run (Props/FnsTie/Statements): what try / return / throw emit around their
+# recursive calls, in order and with their arguments, and where the in_try_block flag is raised and lowered
+THEOREM_MODULES.append("Yarel.Props.FnsTie.Statements")
+REQUIRED_THEOREMS += ["emit_return_skeleton", "return_statement_skeleton", "throw_statement_skeleton", "try_statement_skeleton",
+                      "try_statement_no_clause", "try_flag_brackets_the_try_block"]
 LEVEL = "proof"
 ASSUMPTIONS = [
     "handler mechanism model Yarel/Model/Handlers.lean transcribes unwind_stack/push/pop/jump_finally/end_finally (tie: event replay)",
